@@ -933,6 +933,9 @@ func (s *sim) issue(m *mutator, fault string, faultK int) {
 		s.failf("%s is blocked although no upload/frozen reader holds the file", name)
 	}
 	// Ran to completion.
+	if !s.dead && (s.labels["fault_read"] || s.labels["fault_write"] || s.labels["fault_truncate"] || s.labels["upload_read_fault"] || s.labels["upload_cas_failure"]) {
+		s.label("mutation_completed_after_failed_call")
+	}
 	if m.kind == "opentrunc" && s.dead {
 		if m.st != virtual.StatusErrStale {
 			s.failf("%s of a file without references returned status=%d, want ESTALE", name, m.st)
@@ -1808,6 +1811,24 @@ func (s *sim) cleanup() {
 
 func TestC16PoolFileLifetimeAndUpload(t *testing.T) {
 	rec := simkit.NewRecorder(t, "C16", "poolfile", ruleText)
+	runLifetime(t, rec, func(s *sim, lastByUpload bool) bool { return s.labels["upload_overlapped_writer"] || lastByUpload })
+}
+
+// TestC14PoolFileLocksReleased is the same state machine judged for C14
+// (pool_backed_file_allocator.go and nfs_handle_allocator.go are among its
+// anchored files): a call that fails - a pool I/O fault inside read, write,
+// truncate or the digest computation of an upload, a CAS failure - must
+// leave neither the file's mutex nor its "frozen" state behind, so every
+// later call still completes.
+func TestC14PoolFileLocksReleased(t *testing.T) {
+	rec := simkit.NewRecorder(t, "C14", "poolfile_locks_released", ruleText+" JUDGED FOR C14: after every action (quiescence of the synctest bubble) the file's lock is free (TryLock hook) and the hook counters of writers / frozen holders equal the model's, so a failed call (one-shot pool I/O fault in read / write / truncate / the digest computation of an upload; failing CAS Put) that left the mutex or the frozen state behind is seen at once; calls issued afterwards must complete unless the model says a live upload or frozen reader legitimately holds them back, and after the final drain nothing may stay blocked (the bubble must drain). NON-TRIVIAL for C14: a call failed through an injected fault or CAS failure AND a later mutating call on the same file completed.")
+	runLifetime(t, rec, func(s *sim, lastByUpload bool) bool {
+		failed := s.labels["fault_read"] || s.labels["fault_write"] || s.labels["fault_truncate"] || s.labels["upload_read_fault"] || s.labels["upload_cas_failure"]
+		return failed && s.labels["mutation_completed_after_failed_call"]
+	})
+}
+
+func runLifetime(t *testing.T, rec *simkit.Recorder, nontrivial func(s *sim, lastByUpload bool) bool) {
 	rapid.Check(t, func(rt *rapid.T) {
 		var s *sim
 		var pv, deadlock any
@@ -1856,7 +1877,7 @@ func TestC16PoolFileLifetimeAndUpload(t *testing.T) {
 		if lastByUpload {
 			labels = append(labels, "last_ref_upload_or_frozen")
 		}
-		rec.Case(s.script, s.labels["upload_overlapped_writer"] || lastByUpload, labels...)
+		rec.Case(s.script, nontrivial(s, lastByUpload), labels...)
 	})
 }
 
